@@ -1,6 +1,8 @@
 import SSVerif.Proofs.Jsgf
 import SSVerif.Proofs.JsgfDesugar
 import SSVerif.Proofs.JsgfExpand
+import SSVerif.Proofs.JsgfExpandSound
+import SSVerif.Proofs.JsgfExpandComplete
 /-!
 # C05 — JSGF compilation preserves the language of the grammar
 
@@ -72,18 +74,30 @@ theorem C05_compiled_language (g : Grammar) (hnd : namesDistinct g = true) {r fu
     (∀ w, nfaEquiv F A n = .ok (some w) → ¬ (Accepts F w ↔ Lang g r w)) :=
   C05_comparison_decides (desugar_matches g hnd) hA
 
-/-- **C05, refusal (mirror of `expand_rule`, partial).** `expandTop` mirrors `expand_rule` /
-`expand_rhs` (repaired) state by state and link by link; the check compares its states and links
-with the raw FSG of the real compiler exactly, for every generated grammar.  Proved: it refuses
-(returns `none`) exactly when `representable` is false — an undefined rule is reached, or a rule on
-the stack is referenced from a position that is not last along the whole chain back to it; in
-particular `<VOID>` never causes a refusal.
-Not proved (growth; full statement): `expand_correct : representable T top = true →
-∃ st, expandTop T top = some st ∧ ∀ ws, Accepts st.toNfa ws ↔ Der T.rules [.ref top] ws`.  Until then the
-language of every produced FSG is decided per grammar by `C05_compiled_language`. -/
-theorem C05_expand_refuses_partial (T : Table) (top : RName) :
-    (expandTop T top).isSome = representable T top :=
-  expandTop_isSome T top
+/-- **C05, the expansion is correct.** `expandTop` mirrors `expand_rule` / `expand_rhs` (repaired:
+`<VOID>` continues from an unreachable state, errors propagate, right recursion is accepted only
+when every reference on the chain back to the stacked rule is in last position) state by state
+and link by link; the check compares its states and links with the raw FSG of the real compiler
+exactly, for every generated grammar.  For **every** rule table and top rule:
+* it refuses (returns `none`) exactly when `representable` is false — an undefined rule is
+  reached, or a rule on the stack is referenced from a position that is not last along the whole
+  chain back to it (left recursion, embedded recursion, also hidden behind tail references);
+* when it does not refuse, the automaton of the produced links (start = entry of the top rule,
+  final = its exit) accepts exactly the sentences the top rule denotes. -/
+theorem C05_expand_correct (T : Table) (top : RName) :
+    ((expandTop T top).isSome = representable T top) ∧
+    (∀ st, expandTop T top = some st → ∀ ws, Accepts st.toNfa ws ↔ Der T.rules [.ref top] ws) :=
+  ⟨expandTop_isSome T top, fun _ h ws => ⟨expandTop_sound h ws, expandTop_complete h ws⟩⟩
+
+/-- **C05, compiler model end to end.** For every surface grammar with distinct rule names and every
+rule `<r>`: parser actions followed by the expansion either refuse (exactly when the desugared
+grammar is not representable from `<r>`) or produce an automaton that accepts exactly the JSGF
+language of `<r>`. -/
+theorem C05_compile_correct (g : Grammar) (hnd : namesDistinct g = true) (r : Nat) :
+    ((expandTop (desugar g) (.user r)).isSome = representable (desugar g) (.user r)) ∧
+    (∀ st, expandTop (desugar g) (.user r) = some st → ∀ ws, Accepts st.toNfa ws ↔ Lang g r ws) := by
+  refine ⟨expandTop_isSome _ _, fun st h ws => ?_⟩
+  exact ((C05_expand_correct (desugar g) (.user r)).2 st h ws).trans (C05_desugar_preserves g hnd r ws)
 
 /-- **C05, weights.** Over ℚ: after `expand_rule`'s normalisation the weights of the first atoms of
 a rule's alternatives sum to one (when their sum is not 0; when it is 0 nothing changes), and
